@@ -303,7 +303,22 @@ func MapOrder[M ~map[K]V, K comparable, V any](m M) []K {
 	if t == nil || t.aborting || len(keys) < 2 {
 		return keys
 	}
-	sort.Slice(keys, func(i, j int) bool { return lessAny(keys[i], keys[j]) })
+	if ids := keyOrdinals(t, keys); ids != nil {
+		// keys with identity only (pointers, channels): canonical order = order of
+		// insertion, known from the simrt.Key calls the rewriter put at every m[k] = v
+		idx := make([]int, len(keys))
+		for i := range idx {
+			idx[i] = i
+		}
+		sort.Slice(idx, func(a, b int) bool { return ids[idx[a]] < ids[idx[b]] })
+		sorted := make([]K, len(keys))
+		for i, j := range idx {
+			sorted[i] = keys[j]
+		}
+		keys = sorted
+	} else {
+		sort.Slice(keys, func(i, j int) bool { return lessAny(keys[i], keys[j]) })
+	}
 	if !t.sim.cfg.MapShuffle {
 		return keys
 	}
@@ -322,6 +337,64 @@ func MapOrder[M ~map[K]V, K comparable, V any](m M) []K {
 		t.call(request{kind: regCount, str: "fault.map_order", n: 1})
 	}
 	return keys
+}
+
+// identityOf returns the address behind a key whose value has identity only, or nil.
+func identityOf(k any) unsafe.Pointer {
+	switch k.(type) {
+	case int, string, int64, int32, uint64, uint32, uint8, float64, bool:
+		return nil
+	}
+	rv := reflect.ValueOf(k)
+	switch rv.Kind() {
+	case reflect.Pointer, reflect.Chan, reflect.UnsafePointer:
+		return rv.UnsafePointer()
+	}
+	return nil
+}
+
+// Key is wrapped by the rewriter around k in every `m[k] = v` (and map literal)
+// whose key type may hold a pointer or a channel. It gives such a key an ordinal
+// the first time it is inserted into any map - program order, hence the same in
+// every execution of a seed - so that MapOrder can put these keys in an order that
+// does not depend on addresses. It returns k.
+func Key[K comparable](k K) K {
+	t := current()
+	if t == nil || t.aborting {
+		return k
+	}
+	if p := identityOf(k); p != nil {
+		t.call(request{kind: regKeyOrd, obj: p})
+	}
+	return k
+}
+
+// keyOrdinals returns the ordinals of the keys when they have identity only, nil
+// when they are ordinary values. A key never seen by Key (inserted outside the
+// rewritten code) gets its ordinal now; two of those in one call would be numbered
+// in Go's own random iteration order, which is counted as a probe because it can
+// make a replay diverge.
+func keyOrdinals[K comparable](t *task, keys []K) []int64 {
+	if len(keys) == 0 || identityOf(keys[0]) == nil {
+		return nil
+	}
+	ids := make([]int64, len(keys))
+	fresh := 0
+	for i, k := range keys {
+		p := identityOf(k)
+		if p == nil {
+			return nil
+		}
+		rep := t.call(request{kind: regKeyOrd, obj: p})
+		ids[i] = rep.n
+		if rep.ok {
+			fresh++
+		}
+	}
+	if fresh > 1 {
+		t.call(request{kind: regCount, str: "probe.map_keys_first_seen_during_iteration", n: int64(fresh)})
+	}
+	return ids
 }
 
 func lessAny(a, b any) bool {
